@@ -264,6 +264,13 @@ def run(ctx):
         if rank:
             tolv = kwarg(rank[0], "tol")
             ctx.ob("R-THREAD", iex, "tol->matrix_rank", tolv == ("n", "tol"), "tol forwarded" if tolv == ("n", "tol") else "tol not forwarded to matrix_rank")
+            # the rank (with its ABSOLUTE singular-value tolerance `tol`) is that of the stacked matrix M itself; its Gram matrix M^+ M has the
+            # squared singular values, so the same tol cuts at sqrt(tol): extremal channels with an independence margin between tol and sqrt(tol)
+            # (weak amplitude damping, gamma ~ 1e-5) are declared non-extremal
+            opnd = rank[0][2][0] if rank[0][2] else None
+            gram = opnd is not None and opnd[0] == "@" and len(opnd[1]) == 2 and (opnd[1][0] == ("dag", opnd[1][1]) or opnd[1][1] == ("dag", opnd[1][0]))
+            ctx.ob("R-PRED", iex, "the rank is taken of the stacked products themselves, not of their Gram matrix", not gram,
+                   "matrix_rank(M, tol)" if not gram else "matrix_rank(M^+ M, tol): singular values are squared while the absolute tolerance is unchanged")
     else:
         ctx.ob("R-ENUM", iex, "rank compared with r*r", None, "final comparison not found", required=False)
     # shortcuts: the only verdict that does not come from the rank test is `True` for a single Kraus operator
